@@ -205,4 +205,9 @@ theorem C10_empty_rebuilt_index_panics_without_guard :
 /-- the facts as regenerated from the tree: both guards are there -/
 theorem C10_index_on_tree : Facts.readIndexChecksLength = true ∧ Facts.readOnlySegmentRefusesEmptyIndex = true := by decide
 
+/-- the file of the current segment is given its size whenever it is shorter than the segment: the mapping never
+    reaches behind the end of the file (a crash between the creation of the file and the write that extends it
+    leaves such a file; genuine defect D-58, repaired) -/
+theorem C10_segment_file_size_on_tree : Facts.walSegmentFileSizeEnsured = true := by decide
+
 end Oxia.C10
